@@ -595,6 +595,410 @@ fn stress(seed: u64, round: u64) -> Result<Value, String> {
 }
 static DONE: std::sync::atomic::AtomicU64 = std::sync::atomic::AtomicU64::new(0);
 
+// ------------------------------------------------------------------ deterministic interleavings
+// Operation A runs in a spawned task of a current-thread runtime after burning `k` units of
+// tokio's cooperative budget: when the budget runs out inside one of A's lock acquisitions the
+// acquisition returns Pending, i.e. the task is switched out exactly there.  While A is parked
+// the main task runs the sequence B; then A finishes, every stream is polled to quiescence and
+// the service is checked.  The outcome must be linearizable: equal to what SOME sequential
+// history with A atomic (before B, between two operations of B, after B) allows.
+//
+// In a scenario `Op::Next(j)` means "the stream opened by the j-th Watch of the main task"
+// (whether or not that Watch succeeded); A's own stream, if A is a Watch, is the last slot.
+#[derive(Clone)]
+struct Scenario {
+    prefix: Vec<Op>,
+    a: Op,
+    b: Vec<Op>,
+}
+const SETTLE_POLLS: usize = 3;
+const NO_STREAM: usize = 999;
+struct Observed {
+    main: Vec<Obs>,   // prefix ++ b, Watch results carry the slot number
+    a: Obs,           // Watch(slot) if A is a successful Watch
+    settle: Vec<Obs>, // SETTLE_POLLS polls per slot, then Check of every name used and of ""
+    parked: bool,     // A was still unfinished when B started
+    a_polls: usize,
+}
+fn scenario_names(sc: &Scenario) -> Vec<String> {
+    let mut v: Vec<String> = sc
+        .prefix
+        .iter()
+        .chain(std::iter::once(&sc.a))
+        .chain(sc.b.iter())
+        .filter_map(|o| match o {
+            Op::Set(n, _) | Op::Clear(n) | Op::Check(n) | Op::Watch(n) => Some(n.clone()),
+            Op::Next(_) => None,
+        })
+        .collect();
+    v.push(String::new());
+    v.sort();
+    v.dedup();
+    v
+}
+fn n_slots(sc: &Scenario) -> usize {
+    sc.prefix.iter().chain(sc.b.iter()).chain(std::iter::once(&sc.a)).filter(|o| matches!(o, Op::Watch(_))).count()
+}
+
+struct Counted<F> {
+    fut: Pin<Box<F>>,
+    polls: std::sync::Arc<std::sync::atomic::AtomicUsize>,
+    done: std::sync::Arc<std::sync::atomic::AtomicBool>,
+}
+impl<F: std::future::Future> std::future::Future for Counted<F> {
+    type Output = F::Output;
+    fn poll(mut self: Pin<&mut Self>, cx: &mut Context<'_>) -> Poll<F::Output> {
+        use std::sync::atomic::Ordering::SeqCst;
+        self.polls.fetch_add(1, SeqCst);
+        let r = self.fut.as_mut().poll(cx);
+        if r.is_ready() {
+            self.done.store(true, SeqCst);
+        }
+        r
+    }
+}
+
+async fn main_op<T>(
+    reporter: &mut tonic_health::server::HealthReporter,
+    client: &mut HealthClient<T>,
+    slots: &mut Vec<Option<Streaming<HealthCheckResponse>>>,
+    op: &Op,
+) -> Obs
+where
+    T: GrpcService<tonic::body::Body>,
+    T::Error: Into<StdError>,
+    T::ResponseBody: http_body::Body<Data = bytes::Bytes> + Send + 'static,
+    <T::ResponseBody as http_body::Body>::Error: Into<StdError> + Send,
+{
+    match op {
+        Op::Set(n, v) => {
+            reporter.set_service_status(n.as_str(), status_of(*v)).await;
+            Obs::Unit
+        }
+        Op::Clear(n) => {
+            reporter.clear_service_status(n.as_str()).await;
+            Obs::Unit
+        }
+        Op::Check(n) => match client.check(req(n)).await {
+            Ok(r) => Obs::Status(r.into_inner().status),
+            Err(st) if st.code() == tonic::Code::NotFound => Obs::NotFound,
+            Err(st) => Obs::Other(st.code() as i32 as u32),
+        },
+        Op::Watch(n) => match client.watch(req(n)).await {
+            Ok(r) => {
+                slots.push(Some(r.into_inner()));
+                Obs::Watch(slots.len() - 1)
+            }
+            Err(st) => {
+                slots.push(None);
+                if st.code() == tonic::Code::NotFound { Obs::NotFound } else { Obs::Other(st.code() as i32 as u32) }
+            }
+        },
+        Op::Next(j) => match slots.get_mut(*j) {
+            Some(Some(s)) => poll_once(s),
+            _ => Obs::NoWatcher,
+        },
+    }
+}
+
+fn run_interleaved(sc: &Scenario, k: usize) -> Result<Observed, String> {
+    use std::sync::atomic::{AtomicBool, AtomicUsize, Ordering::SeqCst};
+    use std::sync::Arc;
+    let rt = tokio::runtime::Builder::new_current_thread()
+        .event_interval(1) // the block_on future gets its turn after every single task poll
+        .enable_time()
+        .build()
+        .map_err(|e| e.to_string())?;
+    let sc = sc.clone();
+    rt.block_on(async move {
+        let body = async {
+            let (mut reporter, server) = health_reporter();
+            let mut client = HealthClient::new(server.clone());
+            let mut slots: Vec<Option<Streaming<HealthCheckResponse>>> = vec![];
+            let mut main = vec![];
+            for op in &sc.prefix {
+                main.push(main_op(&mut reporter, &mut client, &mut slots, op).await);
+            }
+            let polls = Arc::new(AtomicUsize::new(0));
+            let done = Arc::new(AtomicBool::new(false));
+            let mut rep_a = reporter.clone();
+            let mut client_a = HealthClient::new(server.clone());
+            let a = sc.a.clone();
+            let fut = async move {
+                for _ in 0..k {
+                    tokio::task::coop::consume_budget().await;
+                }
+                match a {
+                    Op::Set(n, v) => {
+                        rep_a.set_service_status(n.as_str(), status_of(v)).await;
+                        (Obs::Unit, None)
+                    }
+                    Op::Clear(n) => {
+                        rep_a.clear_service_status(n.as_str()).await;
+                        (Obs::Unit, None)
+                    }
+                    Op::Check(n) => match client_a.check(req(&n)).await {
+                        Ok(r) => (Obs::Status(r.into_inner().status), None),
+                        Err(st) if st.code() == tonic::Code::NotFound => (Obs::NotFound, None),
+                        Err(st) => (Obs::Other(st.code() as i32 as u32), None),
+                    },
+                    Op::Watch(n) => match client_a.watch(req(&n)).await {
+                        Ok(r) => (Obs::Watch(0), Some(r.into_inner())),
+                        Err(st) if st.code() == tonic::Code::NotFound => (Obs::NotFound, None),
+                        Err(st) => (Obs::Other(st.code() as i32 as u32), None),
+                    },
+                    Op::Next(_) => (Obs::NoWatcher, None),
+                }
+            };
+            let handle = tokio::spawn(Counted { fut: Box::pin(fut), polls: polls.clone(), done: done.clone() });
+            while polls.load(SeqCst) == 0 {
+                tokio::task::yield_now().await;
+            }
+            let parked = !done.load(SeqCst);
+            for op in &sc.b {
+                main.push(main_op(&mut reporter, &mut client, &mut slots, op).await);
+            }
+            let (mut a_out, a_stream) = handle.await.map_err(|e| format!("operation A panicked: {}", e))?;
+            if matches!(sc.a, Op::Watch(_)) {
+                slots.push(a_stream);
+                if let Obs::Watch(_) = a_out {
+                    a_out = Obs::Watch(slots.len() - 1);
+                }
+            }
+            let mut settle = vec![];
+            for j in 0..slots.len() {
+                for _ in 0..SETTLE_POLLS {
+                    settle.push(main_op(&mut reporter, &mut client, &mut slots, &Op::Next(j)).await);
+                }
+            }
+            for n in scenario_names(&sc) {
+                settle.push(main_op(&mut reporter, &mut client, &mut slots, &Op::Check(n)).await);
+            }
+            Ok::<Observed, String>(Observed { main, a: a_out, settle, parked, a_polls: polls.load(SeqCst) })
+        };
+        match tokio::time::timeout(std::time::Duration::from_secs(10), body).await {
+            Ok(r) => r,
+            Err(_) => Err("the interleaved run did not finish (deadlock)".to_string()),
+        }
+    })
+}
+
+/// The sequential history in which A takes effect just before b[i], with concrete stream
+/// numbers, and the observed outputs rearranged into that order.
+fn candidate(sc: &Scenario, o: &Observed, i: usize) -> (Vec<Op>, Op, Vec<Op>, Vec<Obs>) {
+    let nslots = n_slots(sc);
+    let mut idx: Vec<usize> = vec![NO_STREAM; nslots];
+    let mut next_idx = 0usize;
+    let mut main_slot = 0usize; // slot of the next main-task Watch
+    let a_slot = nslots.wrapping_sub(1);
+    let mut conc = |op: &Op, out: &Obs, is_a: bool, idx: &mut Vec<usize>| -> (Op, Obs) {
+        match op {
+            Op::Watch(n) => {
+                let slot = if is_a {
+                    a_slot
+                } else {
+                    main_slot += 1;
+                    main_slot - 1
+                };
+                let out2 = if let Obs::Watch(_) = out {
+                    idx[slot] = next_idx;
+                    next_idx += 1;
+                    Obs::Watch(idx[slot])
+                } else {
+                    out.clone()
+                };
+                (Op::Watch(n.clone()), out2)
+            }
+            Op::Next(j) => (Op::Next(idx.get(*j).copied().unwrap_or(NO_STREAM)), out.clone()),
+            o => (o.clone(), out.clone()),
+        }
+    };
+    let (mut pre, mut post, mut outs) = (vec![], vec![], vec![]);
+    let np = sc.prefix.len();
+    for (j, op) in sc.prefix.iter().chain(sc.b[..i].iter()).enumerate() {
+        let (c, x) = conc(op, &o.main[j], false, &mut idx);
+        pre.push(c);
+        outs.push(x);
+    }
+    let (a, ax) = conc(&sc.a, &o.a, true, &mut idx);
+    outs.push(ax);
+    for (j, op) in sc.b[i..].iter().enumerate() {
+        let (c, x) = conc(op, &o.main[np + i + j], false, &mut idx);
+        post.push(c);
+        outs.push(x);
+    }
+    let mut t = 0;
+    for j in 0..nslots {
+        for _ in 0..SETTLE_POLLS {
+            post.push(Op::Next(idx[j]));
+            outs.push(o.settle[t].clone());
+            t += 1;
+        }
+    }
+    for n in scenario_names(sc) {
+        post.push(Op::Check(n));
+        outs.push(o.settle[t].clone());
+        t += 1;
+    }
+    (pre, a, post, outs)
+}
+fn lin_tr(o: &Obs) -> Tr {
+    match o {
+        Obs::Watch(_) => Tr::tag(4, vec![]),
+        o => o.tr(),
+    }
+}
+
+/// safety facts that hold for every schedule, whatever the linearization
+fn hard_facts(sc: &Scenario, o: &Observed) -> Option<String> {
+    let all: Vec<&Op> = sc.prefix.iter().chain(std::iter::once(&sc.a)).chain(sc.b.iter()).collect();
+    // name watched by each slot
+    let mut slot_name: Vec<String> = sc.prefix.iter().chain(sc.b.iter()).filter_map(|x| if let Op::Watch(n) = x { Some(n.clone()) } else { None }).collect();
+    if let Op::Watch(n) = &sc.a {
+        slot_name.push(n.clone());
+    }
+    let set_for = |n: &str| -> Vec<i32> {
+        let mut v: Vec<i32> = all.iter().filter_map(|x| match x { Op::Set(m, s) if m == n => Some(*s as i32), _ => None }).collect();
+        if n.is_empty() {
+            v.push(1);
+        }
+        v
+    };
+    let cleared = |n: &str| all.iter().any(|x| matches!(x, Op::Clear(m) if m == n));
+    // every stream event, per slot, in observation order
+    let mut per_slot: Vec<Vec<Obs>> = vec![vec![]; slot_name.len()];
+    for (op, out) in sc.prefix.iter().chain(sc.b.iter()).zip(&o.main) {
+        if let Op::Next(j) = op {
+            if *j < per_slot.len() {
+                per_slot[*j].push(out.clone());
+            }
+        }
+    }
+    for j in 0..slot_name.len() {
+        for t in 0..SETTLE_POLLS {
+            per_slot[j].push(o.settle[j * SETTLE_POLLS + t].clone());
+        }
+    }
+    let names = scenario_names(sc);
+    let checks = &o.settle[slot_name.len() * SETTLE_POLLS..];
+    for (j, evs) in per_slot.iter().enumerate() {
+        let n = &slot_name[j];
+        for e in evs {
+            match e {
+                Obs::End if !cleared(n) => return Some(format!("stream {} of {:?} ended although the service was never cleared", j, n)),
+                Obs::Item(v) if !set_for(n).contains(v) => return Some(format!("stream {} of {:?} reported {} which was never set for it", j, n, v)),
+                Obs::Panic | Obs::Other(_) => return Some(format!("stream {} of {:?}: {:?}", j, n, e)),
+                _ => {}
+            }
+        }
+        let fin = &checks[names.iter().position(|x| x == n).unwrap()];
+        let ended = evs.iter().any(|e| *e == Obs::End);
+        let last = evs.iter().rev().find_map(|e| if let Obs::Item(v) = e { Some(*v) } else { None });
+        let opened = evs.iter().any(|e| *e != Obs::NoWatcher);
+        if opened && !ended {
+            match fin {
+                Obs::Status(v) if last == Some(*v) => {}
+                f => return Some(format!("live stream {} of {:?} converged to {:?} but the final check says {:?}", j, n, last, f)),
+            }
+        }
+    }
+    for (n, c) in names.iter().zip(checks) {
+        match c {
+            Obs::Status(v) if set_for(n).contains(v) => {}
+            Obs::NotFound if cleared(n) || set_for(n).is_empty() => {}
+            c => return Some(format!("final check({:?}) = {:?}: not a status set by any writer", n, c)),
+        }
+    }
+    None
+}
+
+fn push_interleaving(out: &mut Out, sc: &Scenario, k: usize, tag: &str) {
+    let ops_json = |v: &[Op]| Value::Array(v.iter().map(|o| o.json()).collect());
+    let input = json!({"scenario": tag, "prefix": ops_json(&sc.prefix), "a": sc.a.json(), "b": ops_json(&sc.b), "k": k});
+    let tag = match &sc.a {
+        Op::Set(..) => "set",
+        Op::Clear(_) => "clear",
+        Op::Watch(_) => "watch",
+        Op::Check(_) => "check",
+        Op::Next(_) => "next",
+    };
+    let o = match run_interleaved(sc, k) {
+        Ok(o) => o,
+        Err(e) => {
+            out.push(Case { kind: format!("interleave.{}", tag), input, model: "Nn 1".into(), impl_obs: Tr::n(1u32), oracle: Some(e), nontrivial: false });
+            return;
+        }
+    };
+    // A finished before B started: real-time order leaves only "A first"
+    let positions: Vec<usize> = if o.parked { (0..=sc.b.len()).collect() } else { vec![0] };
+    let mut verdicts = vec![];
+    let mut cands = vec![];
+    let mut lin = false;
+    for i in &positions {
+        let (pre, a, post, outs) = candidate(sc, &o, *i);
+        let mut hist = pre.clone();
+        hist.push(a.clone());
+        hist.extend(post.iter().cloned());
+        match oracle_settled(&hist, &outs) {
+            None => lin = true,
+            Some(e) => verdicts.push(format!("A before b[{}]: {}", i, e)),
+        }
+        let l = |v: &[Op]| coq_list(v, |o| format!("({})", o.coq()));
+        cands.push(format!("({},{},{})", l(&pre), a.coq(), l(&post)));
+    }
+    let mut verdict = hard_facts(sc, &o);
+    if verdict.is_none() && !lin {
+        verdict = Some(format!("not linearizable: no sequential order with A atomic explains the outcome ({})", verdicts.join("; ")));
+    }
+    // canonical layout of the observation: main task in program order, then A
+    let mut obs: Vec<Tr> = o.main.iter().chain(o.settle.iter()).map(lin_tr).collect();
+    obs.push(lin_tr(&o.a));
+    out.hist("interleave: A still unfinished when B ran", o.parked);
+    out.hist("interleave: polls of A", o.a_polls.min(4));
+    out.hist("interleave: candidate orders", positions.len());
+    out.push(Case {
+        kind: format!("interleave.{}", tag),
+        input,
+        model: format!("obs_linearizable [{}] {}", cands.join(";"), Tr::L(obs).to_coq()),
+        impl_obs: Tr::n(1u32),
+        oracle: verdict,
+        nontrivial: o.parked,
+    });
+}
+
+fn interleaving_scenarios() -> Vec<(String, Scenario)> {
+    use Op::*;
+    let a = || "a".to_string();
+    let prefixes: Vec<(&str, Vec<Op>)> = vec![
+        ("fresh", vec![]),
+        ("existing", vec![Set(a(), 1)]),
+        ("watched", vec![Set(a(), 1), Watch(a()), Next(0)]),
+        ("just-cleared", vec![Set(a(), 1), Watch(a()), Clear(a())]),
+    ];
+    let a_ops: Vec<(&str, Op)> = vec![("set", Set(a(), 2)), ("clear", Clear(a())), ("watch", Watch(a())), ("check", Check(a()))];
+    let mut v = vec![];
+    for (pn, p) in &prefixes {
+        let w = p.iter().filter(|o| matches!(o, Watch(_))).count(); // slot of B's first Watch
+        let bs: Vec<(&str, Vec<Op>)> = vec![
+            ("set", vec![Set(a(), 0)]),
+            ("set-watch-poll", vec![Set(a(), 0), Watch(a()), Next(w)]),
+            ("watch-poll", vec![Watch(a()), Next(w)]),
+            ("clear", vec![Clear(a())]),
+            ("check", vec![Check(a())]),
+            ("clear-set", vec![Clear(a()), Set(a(), 0)]),
+            ("set-clear", vec![Set(a(), 0), Clear(a())]),
+            ("watch-poll-set-poll", vec![Watch(a()), Next(w), Set(a(), 0), Next(w)]),
+        ];
+        for (an, ao) in &a_ops {
+            for (bn, b) in &bs {
+                v.push((format!("{}.{}-vs-{}", pn, an, bn), Scenario { prefix: p.clone(), a: ao.clone(), b: b.clone() }));
+            }
+        }
+    }
+    v
+}
+const MAX_BURN: usize = 130;
+
 fn main() {
     let a = args();
     let mut out = Out::new(&a.out);
@@ -603,9 +1007,16 @@ fn main() {
     if let Some(f) = &a.replay {
         let v: Value = serde_json::from_str(&std::fs::read_to_string(f).unwrap()).unwrap();
         let c = if v.get("first_disagreement").is_some() { &v["first_disagreement"] } else { &v };
-        let ops: Vec<Op> = c["input"]["ops"].as_array().map(|x| x.iter().map(Op::from_json).collect()).unwrap_or_default();
-        let settled = c["input"]["settled"].as_bool().unwrap_or(false);
-        push_case(&mut out, c["kind"].as_str().unwrap_or("replay"), ops, settled);
+        let kind = c["kind"].as_str().unwrap_or("replay");
+        let list = |v: &Value| -> Vec<Op> { v.as_array().map(|x| x.iter().map(Op::from_json).collect()).unwrap_or_default() };
+        if kind.starts_with("interleave") {
+            let sc = Scenario { prefix: list(&c["input"]["prefix"]), a: Op::from_json(&c["input"]["a"]), b: list(&c["input"]["b"]) };
+            push_interleaving(&mut out, &sc, c["input"]["k"].as_u64().unwrap_or(0) as usize, c["input"]["scenario"].as_str().unwrap_or("replay"));
+        } else {
+            let ops = list(&c["input"]["ops"]);
+            let settled = c["input"]["settled"].as_bool().unwrap_or(false);
+            push_case(&mut out, kind, ops, settled);
+        }
         out.finish(IMPORTS, "replay of one stored history", json!({}));
         return;
     }
@@ -615,6 +1026,13 @@ fn main() {
         let mut s = ops;
         settle(&mut s);
         push_case(&mut out, k, s, true);
+    }
+
+    // deterministic interleavings: a task switch at every cooperative yield point of A
+    for (tag, sc) in interleaving_scenarios() {
+        for k in 0..=MAX_BURN {
+            push_interleaving(&mut out, &sc, k, &tag);
+        }
     }
 
     let names3: &[&str] = &["", "a", "b"];
@@ -694,7 +1112,7 @@ fn main() {
 
     out.finish(
         IMPORTS,
-        "each history over {set,clear,check,watch,next} is executed on the real health_reporter()/HealthServer pair through the generated HealthClient (in-process, Next = one poll of the response stream) and its list of outputs is compared with obs_history of the model; the oracle replays the history against a plain map and per-stream status lists",
+        "interleave.*: operation A runs in a spawned task of a current-thread tokio runtime after burning k = 0..=130 units of the cooperative budget (so that it is switched out at each of its lock acquisitions in turn) while the main task runs the sequence B; the outcome must equal the model's outcome for one of the sequential histories with A atomic (obs_linearizable), the oracle checks the same against the plain-map replay plus the schedule-independent safety facts | each history over {set,clear,check,watch,next} is executed on the real health_reporter()/HealthServer pair through the generated HealthClient (in-process, Next = one poll of the response stream) and its list of outputs is compared with obs_history of the model; the oracle replays the history against a plain map and per-stream status lists",
         json!({"exhaustive": exhaustive}),
     );
 }
